@@ -194,32 +194,44 @@ def rule_raise(ctx):
             if pa.outcome == "return" and show(pa.value) != "value":
                 ok = False
         ctx.check(ok, "C13.RAISE", f"{f.short}[{vname}]", "returns its argument or raises", "checks.dictionary does not return its first argument unchanged / never raises", fi=f, text=f"dictionary:{vname}")
-    # children
+    # children: evaluated on concrete lists of parts (good = an instance of the required class or of a subclass)
     f = p.func("indi.message.checks.children")
-    paths = run_method(p, f, args=[Term("param", "value"), Term("param", "child_class")])
-    ctx.paths_enumerated += len(paths)
+    req = p.cls("indi.message.one_parts.OneText")
+    other = p.cls("indi.message.one_parts.OneNumber")
+    from ..absint import Lst as _Lst, Tup as _Tup, explore as _explore, Interp as _Interp
+
+    def mk(ci_, i):
+        return Obj(ci_, {"name": Const(f"n{i}"), "__closed__": Const(True)}, label=f"part{i}:{ci_.name}")
+
+    cases = [("all of the required kind", ["g", "g", "g"], "same"), ("one child", ["g"], "same"), ("no children", [], "same"), ("absent (None)", None, "empty"),
+             ("a foreign child last", ["g", "g", "b"], "raise"), ("a foreign child first", ["b", "g"], "raise"), ("a foreign child in the middle", ["g", "b", "g"], "raise"), ("only a foreign child", ["b"], "raise")]
     ok = True
-    saw_reject = False
-    for pa in paths:
-        neg = [e for e in pa.assumes() if isinstance(e.data["cond"], Term) and "isinstance" in show(e.data["cond"]) and not e.data["truth"]]
-        if neg:
-            saw_reject = True
-            if pa.outcome != "raise":
-                ok = False
-        if pa.outcome == "return":
-            s = show(pa.value)
-            none_path = any(show(e.data["cond"]) == "(value is None)" and e.data["truth"] for e in pa.assumes())
-            if none_path:
-                if s != "[]" and s != "()":
-                    ok = False
-            elif s != "value":
-                ok = False
-        # every element must be tested: a returning path with k iterations has k positive isinstance tests
-        iters = [e for e in pa.events if e.kind == "loop-iter"]
-        pos = [e for e in pa.assumes() if isinstance(e.data["cond"], Term) and "isinstance" in show(e.data["cond"]) and "child_class" in show(e.data["cond"])]
-        if pa.outcome == "return" and len(pos) < len(iters):
-            ok = False
-    ctx.check(ok and saw_reject, "C13.RAISE", f.short, "every child is type-tested; a foreign child raises; otherwise the argument is returned", "checks.children lets a child of the wrong kind through (or does not return its argument)", fi=f, text="children")
+    why = None
+    for as_tuple in (False, True):
+        for label, shape, want in cases:
+            def run(it: _Interp):
+                if shape is None:
+                    it.arg = Const(None)
+                else:
+                    items = [mk(req if s_ == "g" else other, i) for i, s_ in enumerate(shape)]
+                    it.arg = (_Tup if as_tuple else _Lst)(items)
+                return it.run_function(Fn(f), [it.arg, Cls(req)], {})
+
+            paths = _explore(p, run, {"inline": lambda fi, node: fi.module.name == "indi.message.checks"})
+            ctx.paths_enumerated += len(paths)
+            if len(paths) != 1:
+                ok, why = False, f"[{label}] not decided by constant evaluation ({len(paths)} paths)"
+                continue
+            pa = paths[0]
+            if want == "raise":
+                good = pa.outcome == "raise"
+            elif want == "same":
+                good = pa.outcome == "return" and pa.value is pa.interp.arg
+            else:
+                good = pa.outcome == "return" and isinstance(pa.value, (_Lst, _Tup)) and not pa.value.items
+            if not good:
+                ok, why = False, f"[{label}; {'tuple' if as_tuple else 'list'}] checks.children {'returns ' + show(pa.value)[:40] if pa.outcome == 'return' else 'raises'}, expected {'a ValueError' if want == 'raise' else ('its argument unchanged' if want == 'same' else 'an empty sequence')}"
+    ctx.check(ok, "C13.RAISE", f.short, f"{2 * len(cases)} concrete child lists: every child is type-tested; a foreign child raises wherever it stands; otherwise the argument is returned unchanged", f"checks.children lets a child of the wrong kind through (or does not return its argument): {why}", fi=f, text="children")
     # number: returns the argument when some pattern matches, raises otherwise
     f = p.func("indi.message.checks.number")
     paths = run_method(p, f, args=[Term("param", "value")])
